@@ -24,6 +24,15 @@ K4  Outcome.  (a) the verdict of a program run as an instruction for every exit 
     child behaviour is a symbolic selector, the operand of `exit-code ==` a symbolic integer;
     `run` in every phase: non-zero => FAIL in [assert], HARD_ERROR elsewhere, unless
     -ignore-exit-code.
+    (c) the child writes BYTES: byte sequences that are not valid UTF-8 (and every single byte value) on stderr /
+    stdout of a program run as an instruction, used as a text source, or looked at by `exit-code`: the verdict
+    depends on the exit code only - never INTERNAL_ERROR.
+K2/K3 quoted words.  Every option-like / reserved word of the program-argument, program, text-source and path
+    syntax - in hard quotes, in soft quotes, as the value of a referenced string symbol, as an element of a
+    referenced list symbol - at every position of every argument list (program forms, program symbols and
+    references, run / % in every phase, -from PROGRAM, programs as text sources, the three actors) and as the text
+    of -stdin / `stdin =`: the process gets the plain word.  K2:option-token: the option matchers of the real
+    parsers on a token with a symbolic string: selected iff not quoted and equal to the option.
 """
 from typing import List, Optional
 
@@ -873,7 +882,10 @@ REGION_ACT_HERE_DOC = 'c10-act-here-doc-loses-empty-and-comment-lines'
 # excludes them and the bound says so); as soon as the file mentions the region (as a finding: the driver excludes it
 # and prints KNOWN-FINDING; in a `fixed` record: nothing is excluded) the full obligation is registered.
 # Remove a name from this tuple when its defect is repaired in /repo.
-PENDING_REGIONS = ()  # both resolved: one repaired (bda2ebc), one listed in known_findings.json
+PENDING_REGIONS = (  # (the two regions of the here-document / ignored-exit-code kernels are resolved)
+    'c10-stderr-from-failing-program-stderr-not-utf8',  # REGION_STDERR_FROM_RAW, reported with the raw-output kernels
+    'c10-exit-code-failure-message-stderr-not-utf8',  # REGION_EXIT_CODE_MSG_RAW, reported with the raw-output kernels
+)
 
 _KF_TEXT = []
 
@@ -1040,15 +1052,25 @@ def _quoted_args(atom, pos: int) -> list:
     return ([atom], [atom, FILE_NAME_ATOM, 'plain2'], ['plain', atom, FILE_NAME_ATOM], ['plain', 'plain2', atom])[pos]
 
 
+QUOTED_HOW = ('in hard quotes', 'in soft quotes', 'as the value of the string symbol S0, referenced (not quoted)',
+              'as an element of the list symbol L, referenced (not quoted); as a text: as for S0')
+
+
 def _quoted_case(layout: str, w: int, q: int, pos: int, oracle_bug=None) -> K3Case:
-    """One test case in which the quoted word stands at position `pos` of EVERY argument list and is the text of
-    every string text source.  The reference denotation: the word itself, as one argument / as the text."""
-    word, quote = sp.QUOTED_WORDS[w], sp.QUOTES[q]
-    atom = sp.quoted_atom(word, quote)
+    """One test case in which the word - written in way `q` - stands at position `pos` of EVERY argument list and is the
+    text of every string text source.  The reference denotation: the word itself, as one argument / as the text.
+    (q >= 2: the predefined symbol S0 has the word as its value, see _quoted_s0.)"""
+    word = sp.QUOTED_WORDS[w]
+    if q < 2:
+        atom = sp.quoted_atom(word, sp.QUOTES[q])
+        text = sp.quoted_text_source(word, sp.QUOTES[q])
+    else:
+        atom = sp.A['sym'] if q == 2 else sp.A['list']
+        text = ('@[S0]@', [sp.S(0)], None)
+    program_name = (atom[0], atom[1][0]) if q != 3 else ('r1', [sp.C('r1')])
     if oracle_bug == 'quoted-word-is-syntax':
         atom = (atom[0], [])  # seeded oracle error: the quoted word expected to be consumed by the syntax (no argument)
     args = _quoted_args(atom, pos)
-    text = sp.quoted_text_source(word, quote)
     name = 'quoted/%s/%d/%d/%d' % (layout, w, q, pos)
     if layout == 'command-line-actor':
         # every program form ($ takes no argument list), definitions of program symbols and references to them,
@@ -1059,7 +1081,8 @@ def _quoted_case(layout: str, w: int, q: int, pos: int, oracle_bug=None) -> K3Ca
             act=Pgm('ref', 'P2', args, stdin=text),
             setup_stdin=sp.generator_with_args('stdout', args),
             runs=[('setup', 'run', Pgm('python', '', args, stdin=text), False),
-                  ('before-assert', '%', Pgm('sys', 'r1', args), False),
+                  # here the word is also the name of the program
+                  ('before-assert', '%', Pgm('sys', program_name[0], args, head_value=program_name[1]), False),
                   ('assert', 'run', Pgm('ref', 'P1', args), False),
                   ('cleanup', 'run', Pgm('sys', 'r3', args, stdin=sp.generator_with_args('stderr', args)), True)],
             probes=[('exit-code', Pgm('sys', 'q', args)), ('stdout', Pgm('ref', 'P2', args)),
@@ -1070,8 +1093,12 @@ def _quoted_case(layout: str, w: int, q: int, pos: int, oracle_bug=None) -> K3Ca
                   runs=[('before-assert', 'run', Pgm('sys', 'r1', args, stdin=sp.generator_with_args('stdout', args)), False)])
 
 
+def _quoted_s0(w: int, q: int) -> str:
+    return sp.QUOTED_WORDS[w] if q >= 2 else 'v0'
+
+
 def _pre_k3q(w, q, pos) -> bool:
-    return 0 <= w < len(sp.QUOTED_WORDS) and 0 <= q < len(sp.QUOTES) and 0 <= pos < len(QUOTED_POSITIONS)
+    return 0 <= w < len(sp.QUOTED_WORDS) and 0 <= q < len(QUOTED_HOW) and 0 <= pos < len(QUOTED_POSITIONS)
 
 
 def k3_quoted_words(w: int, q: int, pos: int) -> bool:
@@ -1080,13 +1107,13 @@ def k3_quoted_words(w: int, q: int, pos: int) -> bool:
     post: _
     """
     w_ = ob.concrete_int(w, 0, len(sp.QUOTED_WORDS) - 1)
-    q_ = ob.concrete_int(q, 0, len(sp.QUOTES) - 1)
+    q_ = ob.concrete_int(q, 0, len(QUOTED_HOW) - 1)
     pos_ = ob.concrete_int(pos, 0, len(QUOTED_POSITIONS) - 1)
     with L.no_tracing():
         case = _quoted_case(ob.case()['layout'], w_, q_, pos_, ob.case().get('oracle_bug'))
         child = L.Child(out=OUT0, err=ERR0, code=0, read_file_arg=(-1 if case.actor == 'source' else None))
         try:
-            run, expected = _run_whole(case, 'v0', 'v1', child)
+            run, expected = _run_whole(case, _quoted_s0(w_, q_), 'v1', child)
         except Exception as e:  # the text is not accepted by the parser
             if not ob.twin():
                 _explain_text('rejected by the parser: %r\n%s' % (e, case.text()))
@@ -1282,6 +1309,275 @@ def k4_instruction(ic: int, ignore: bool) -> bool:
     return ob.post(ok)
 
 
+# ----------------------------------------------------------------------------- K4: output that is not text
+# A child writes BYTES.  What the bytes are must not change the verdict: a non-zero exit code is HARD_ERROR / FAIL (the
+# stderr of the program is only shown in the message), a zero or ignored one is success - never INTERNAL_ERROR.
+# Selector kernels: selectors made concrete, then the real code runs natively.
+
+REAL_K4_RAW = (
+    'exactly_lib.impls.program_execution.processors.read_stderr_on_error.'
+    'ProcessorThatStoresResultInFilesInDirAndReadsStderrOnNonZeroExitCode._stderr_for',
+    'exactly_lib.impls.program_execution.processors.read_stderr_on_error.ProcessorThatReadsStderrOnNonZeroExitCode._stderr_for',
+    'exactly_lib.impls.types.string_source.command_output.exit_relevant.StdoutWriter.write',
+    'exactly_lib.impls.types.string_source.command_output.exit_relevant.StderrFileCreator.create',
+    'exactly_lib.impls.instructions.assert_.process_output.impl.exit_code.instruction._FailureMessageConfig.tail',
+    'exactly_lib.impls.instructions.assert_.process_output.impl.exit_code.getter_from_program._ExitCodeAndStderrFileGetter.get',
+    'exactly_lib.common.err_msg.std_err_contents.STD_ERR_TEXT_READER',
+)
+STUB_RAW_CHILD = ('the stand-in child writes the chosen BYTES to the file descriptors it is given (os.write), as a real '
+                  'child does')
+
+# Regions of defects found by these kernels on the unchanged tree (reported; see PENDING_REGIONS)
+REGION_STDERR_FROM_RAW = 'c10-stderr-from-failing-program-stderr-not-utf8'
+REGION_EXIT_CODE_MSG_RAW = 'c10-exit-code-failure-message-stderr-not-utf8'
+
+RAW_WHERE = ('stderr and stdout', 'stderr only')
+RAW_FORMS = ('run', '%', '$', 'run-ref')
+
+
+def _raw(ib: int) -> bytes:
+    return sp.RAW_OUTPUTS[ib][1]
+
+
+def _instruction_outcome_ok(case: K3Case, code: int, ignore: bool, child: L.Child, bug=None) -> bool:
+    """the program of the (single) run / % / $ instruction of `case` behaves as `child`: the reference verdict"""
+    phase, form, p, _ = case.runs[0]
+    text = None
+    if ignore:
+        text = K3Case(case.name, act=case.act, defs=case.defs, runs=[(phase, form, p, True)]).text()
+    run, expected = _run_whole(case, 'v0', 'v1', L.Child(out=OUT0, err=ERR0, code=0), run_children={'run0': child}, text=text)
+    if code != 0 and not ignore:
+        status = 'FAIL' if (phase == 'assert' and bug != 'hard-error-everywhere') else 'HARD_ERROR'
+        if phase == 'setup':
+            expected = [e for e in expected if e.role != 'atc']  # nothing after the failing instruction runs, except [cleanup]
+        ok = run.status == status and run.failing_phase() == phase
+    else:
+        ok = run.status == 'PASS'
+    ok = ok and _procs_match(expected, run.calls, _source_text())
+    if not ok and not ob.twin():
+        _explain(run, expected)
+    return ok
+
+
+def _pre_k4r(f, ib, wh, ic, ignore) -> bool:
+    if not (0 <= f < len(RAW_FORMS) and 0 <= ib < len(sp.RAW_OUTPUTS) and 0 <= wh < len(RAW_WHERE)
+            and 0 <= ic < len(_codes(ob.case()))):
+        return False
+    forms = ob.case().get('forms', RAW_FORMS)
+    for i in range(len(RAW_FORMS)):
+        if f == i and RAW_FORMS[i] not in forms:
+            return False
+    if ignore and not (f == 0 or f == 3):
+        return False  # only `run` has -ignore-exit-code
+    return True
+
+
+def k4_raw_instruction(f: int, ib: int, wh: int, ic: int, ignore: bool) -> bool:
+    """
+    pre: _pre_k4r(f, ib, wh, ic, ignore)
+    post: _
+    """
+    form = ob.pick(RAW_FORMS, f)
+    data = _raw(ob.concrete_int(ib, 0, len(sp.RAW_OUTPUTS) - 1))
+    both = ob.concrete_int(wh, 0, len(RAW_WHERE) - 1) == 0
+    code = ob.pick(_codes(ob.case()), ic)
+    ignore_ = ob.concrete_bool(ignore)
+    with L.no_tracing():
+        case = _k3_case('instr/%s/%s' % (ob.case()['phase'], form))
+        child = L.Child(out=(data if both else 'o'), err=data, code=code)
+        ok = _instruction_outcome_ok(case, code, ignore_, child, ob.case().get('oracle_bug'))
+    return ob.post(ok)
+
+
+def _pre_k4y(b, alone) -> bool:
+    return 0 <= b <= 255
+
+
+def k4_raw_byte(b: int, alone: bool) -> bool:
+    """
+    pre: _pre_k4y(b, alone)
+    post: _
+    """
+    b_ = ob.concrete_int(b, 0, 255)
+    alone_ = ob.concrete_bool(alone)
+    with L.no_tracing():
+        data = bytes([b_]) if alone_ else b'some text ' + bytes([b_]) + b' more\n'
+        case = _k3_case('instr/%s/%s' % (ob.case()['phase'], ob.case()['form']))
+        ok = _instruction_outcome_ok(case, 3, False, L.Child(out='o', err=data, code=3), ob.case().get('oracle_bug'))
+    return ob.post(ok)
+
+
+def _pre_k4g(v, ib, ic) -> bool:
+    c = ob.case()
+    if not (0 <= v < len(sp.GENERATOR_VARIANTS) and 0 <= ib < len(sp.RAW_OUTPUTS) and 0 <= ic < len(_codes(c))):
+        return False
+    if _left_out(REGION_IGN_OUTPUT) and v >= 2:
+        return False
+    if _left_out(REGION_STDERR_FROM_RAW):
+        # -stderr-from PROGRAM without -ignore-exit-code, non-zero exit code, stderr of the program not valid UTF-8
+        codes = _codes(c)
+        for i in range(len(sp.RAW_OUTPUTS)):
+            for j in range(len(codes)):
+                if ib == i and ic == j and v == 1 and codes[j] != 0 and not sp.is_utf8(_raw(i)):
+                    return False
+    return True
+
+
+def k4_raw_generator(v: int, ib: int, ic: int) -> bool:
+    """
+    pre: _pre_k4g(v, ib, ic)
+    post: _
+    """
+    variant = ob.pick(sp.GENERATOR_VARIANTS, v)
+    data = _raw(ob.concrete_int(ib, 0, len(sp.RAW_OUTPUTS) - 1))
+    code = ob.pick(_codes(ob.case()), ic)
+    with L.no_tracing():
+        case = _k3_case('parts/%s/%s' % (ob.case()['layout'], variant))
+        ignored = variant.endswith('-ign')
+        from_stdout = 'stdout' in sp.T[variant][0].split()[0]
+        fails = code != 0 and not ignored
+        if ob.case().get('oracle_bug') == 'exit-code-of-text-source-ignored':
+            fails = False  # seeded oracle error: the output expected to be used whatever the exit code
+        if fails:
+            gen = L.Child(out=data, err=data, code=code)  # nothing of it is used as text
+        elif from_stdout:
+            gen = L.Child(out=sp.GEN_OUT, err=data, code=code)  # the channel that is not captured carries the bytes
+        else:
+            gen = L.Child(out=data, err=sp.GEN_ERR, code=code)
+        run, expected = _run_whole(case, 'v0', 'v1', L.Child(out=OUT0, err=ERR0, code=0),
+                                   run_children={'gen': gen, 'gen-ign': gen})
+        if fails:
+            # "The result is HARD_ERROR if the exit code is non-zero, unless -ignore-exit-code is given": the program
+            # whose stdin the text is part of cannot be started
+            first = [i for i, e in enumerate(expected) if e.role in ('gen', 'gen-ign')][0]
+            expected = expected[:first + 1]
+            ok = run.status == 'HARD_ERROR'
+        else:
+            ok = run.status == 'PASS'
+        ok = ok and _procs_match(expected, run.calls, _source_text())
+        if not ok and not ob.twin():
+            _explain(run, expected)
+    return ob.post(ok)
+
+
+RAW_EXIT_CODES = (0, 1, 7, 255)
+RAW_EXIT_CODE_CASE = 'exit-code/raw-output'
+
+
+def _k4x_cases() -> List[K3Case]:
+    # the exit code of the action to check (== 1) and of a program (-from, == PROBE_CODE); no assertion on the streams
+    return [K3Case(RAW_EXIT_CODE_CASE, act=Pgm('sys', 'prog', ['plain']), streams=False, exit_code=1,
+                   probes=[('exit-code', Pgm('sys', 'q', ['sym'], stdin='string'))])]
+
+
+def _pre_k4e(ib, ic, jc) -> bool:
+    if not (0 <= ib < len(sp.RAW_OUTPUTS) and 0 <= ic < len(RAW_EXIT_CODES) and 0 <= jc < len(RAW_EXIT_CODES)):
+        return False
+    if _left_out(REGION_EXIT_CODE_MSG_RAW):
+        # an `exit-code` assertion that does not hold, on a process whose stderr is not valid UTF-8
+        holds = [(i, j) for i in range(len(RAW_EXIT_CODES)) for j in range(len(RAW_EXIT_CODES))
+                 if RAW_EXIT_CODES[i] == 1 and RAW_EXIT_CODES[j] == PROBE_CODE]
+        for i in range(len(sp.RAW_OUTPUTS)):
+            if ib == i and not sp.is_utf8(_raw(i)):
+                for (a, b) in holds:
+                    if ic == a and jc == b:
+                        return True
+                return False
+    return True
+
+
+def k4_raw_exit_code(ib: int, ic: int, jc: int) -> bool:
+    """
+    pre: _pre_k4e(ib, ic, jc)
+    post: _
+    """
+    data = _raw(ob.concrete_int(ib, 0, len(sp.RAW_OUTPUTS) - 1))
+    atc_code, pgm_code = ob.pick(RAW_EXIT_CODES, ic), ob.pick(RAW_EXIT_CODES, jc)
+    with L.no_tracing():
+        case = _k3_case(RAW_EXIT_CODE_CASE)
+        run, expected = _run_whole(case, 'v0', 'v1', L.Child(out=data, err=data, code=atc_code),
+                                   run_children={'probe': L.Child(out=data, err=data, code=pgm_code)})
+        bug = ob.case().get('oracle_bug')
+        # the assertions are evaluated in order; the first one that does not hold FAILs the case
+        if atc_code != 1:
+            want = ('FAIL', 'exit-code == 1')
+            expected = [e for e in expected if e.role != 'probe']
+        elif pgm_code != PROBE_CODE and bug != 'exit-code-from-not-looked-at':
+            want = ('FAIL', 'exit-code -from ')
+        else:
+            want = ('PASS', '')
+        ok = _procs_match(expected, run.calls, _source_text())
+        ok = ok and run.status == want[0] and run.failing_line().startswith(want[1])
+        ok = ok and (want[0] == 'PASS' or run.failing_phase() == 'assert')
+        if not ok and not ob.twin():
+            _explain(run, expected)
+    return ob.post(ok)
+
+
+# ----------------------------------------------------------------------------- K2: which tokens select an option
+# The matchers by which the REAL parsers of PROGRAM-ARGUMENT, of the executable of a PROGRAM and of TEXT-SOURCE choose
+# their option variants, on a token whose string is symbolic.
+
+REAL_K2_TOKEN = (
+    'exactly_lib.util.parse.token_matchers.is_option',
+    'exactly_lib.util.parse.token_matchers._Equals.matches',
+    'exactly_lib.util.parse.token.Token',
+    'exactly_lib.impls.types.program.parse.parse_arguments._ElementParser',
+    'exactly_lib.impls.types.program.parse.parse_executable_file_path._Parser',
+    'exactly_lib.impls.types.string_source.parse._StringSourceParserWoParens',
+)
+# the options of PROGRAM-ARGUMENT, of the executable of a PROGRAM, of TEXT-SOURCE (reference manual)
+OPTION_VARIANTS = ('-existing-file', '-existing-dir', '-existing-path', '-python', '-contents-of', '-stdout-from',
+                   '-stderr-from')
+_OPTION_MATCHERS = []
+
+
+def _option_matchers() -> list:
+    if not _OPTION_MATCHERS:
+        from exactly_lib.impls.types.program.parse import parse_arguments, parse_executable_file_path
+        from exactly_lib.impls.types.string_source import defs as ss_defs, parse as ss_parse
+        ms = [c.matcher for c in parse_arguments._ElementParser()._element_choices]
+        ms += [c.matcher for c in parse_executable_file_path._Parser()._choices]
+        ss = ss_parse._StringSourceParserWoParens(ss_defs.src_rel_opt_arg_conf_for_phase(False).options)
+        ms += [c.matcher for c in ss._variants_parser._choices]
+        if len(ms) != len(OPTION_VARIANTS):
+            raise ValueError('harness error: the parsers have other option variants than the reference lists')
+        _OPTION_MATCHERS.extend(ms)
+    return _OPTION_MATCHERS
+
+
+def _pre_k2t(s, quote) -> bool:
+    return len(s) <= ob.case()['maxlen'] and 0 <= quote <= 2
+
+
+def k2_option_token(s: str, quote: int) -> bool:
+    """
+    pre: _pre_k2t(s, quote)
+    post: _
+    """
+    from exactly_lib.util.parse.token import Token, TokenType
+    qk = ob.concrete_int(quote, 0, 2)  # 0: not quoted, 1: hard quotes, 2: soft quotes
+    if qk == 0:
+        token = Token(TokenType.PLAIN, s, s)
+    else:
+        ch = "'" if qk == 1 else '"'
+        token = Token(TokenType.QUOTED, s, ch + s + ch)
+    selected = -1
+    n = 0
+    matchers = _option_matchers()
+    for i in range(len(matchers)):
+        if matchers[i].matches(token):
+            selected = i
+            n += 1
+    # reference: a token is an option iff it is NOT quoted and is the option as written in the manual
+    want = -1
+    if qk == 0 or ob.case().get('oracle_bug') == 'quotes-do-not-matter':
+        for i in range(len(OPTION_VARIANTS)):
+            if s == OPTION_VARIANTS[i]:
+                want = i
+    return ob.post(selected == want and n == (0 if want == -1 else 1))
+
+
 # =============================================================================================== obligations
 
 def obligations(tier: str) -> List[Ob]:
@@ -1333,6 +1629,20 @@ def obligations(tier: str) -> List[Ob]:
                   case=dict(scenario='chain/2-args', maxlen=2, oracle_bug='args-reversed-layers'), kernel='K2',
                   bound='seeded oracle error: accumulated arguments expected in reverse order', timeout=120,
                   expect=ob.REFUTE, real=REAL_K2, stubs=(STUB_SYMBOLS, STUB_SINK)))
+    mt = 20 if tier == 'quick' else 40
+    obs.append(Ob(
+        name='K2:option-token', fn='k2_option_token', case=dict(maxlen=mt), kernel='K2',
+        bound='every token whose string has <= %d characters (any characters), not quoted / in hard quotes / in soft quotes: '
+              'the option variants %r of PROGRAM-ARGUMENT, of the executable of a PROGRAM and of TEXT-SOURCE are selected '
+              'iff the token is not quoted and is the option' % (mt, OPTION_VARIANTS),
+        timeout=120, real=REAL_K2_TOKEN,
+        outside=('what the parsers do with the selected variant (K3:quoted-words/*, K2:args/paths)',),
+        entry='the token matchers held by the real parsers (_ElementParser, parse_executable_file_path._Parser, '
+              '_StringSourceParserWoParens) on a Token'))
+    obs.append(Ob(name='K2:seeded-quotes-do-not-matter', fn='k2_option_token',
+                  case=dict(maxlen=mt, oracle_bug='quotes-do-not-matter'), kernel='K2',
+                  bound='seeded oracle error: a quoted token expected to select the option it spells', timeout=120,
+                  expect=ob.REFUTE, real=REAL_K2_TOKEN))
     # ---- K3
     m3 = 1 if tier == 'quick' else 3
     for c in _k3_cases(tier):
@@ -1378,6 +1688,22 @@ def obligations(tier: str) -> List[Ob]:
     obs.append(Ob(name='K3:seeded-blank-lines-dropped', fn='k3_act_here_doc', case=dict(oracle_bug='blank-lines-dropped'),
                   kernel='K3', selector=True, bound='seeded oracle error: blank lines of a here-document expected to be dropped',
                   timeout=120, expect=ob.REFUTE, real=REAL_K3, stubs=(STUB_SUBPROCESS, STUB_SANDBOX, STUB_UNTRACED)))
+    for layout in QUOTED_LAYOUTS:
+        obs.append(Ob(
+            name='K3:quoted-words/' + layout, fn='k3_quoted_words', case=dict(layout=layout), kernel='K3', selector=True,
+            bound='test case %r with QW each of the words %r written in each of the ways %r, at each of the positions %r '
+                  'of every argument list (symbolic selectors): every process gets the word as one argument / as the text '
+                  'of its stdin' % (
+                      _quoted_case(layout, 0, 0, 2).text().replace(sp.quoted(sp.QUOTED_WORDS[0], sp.QUOTES[0]), 'QW'),
+                      sp.QUOTED_WORDS, QUOTED_HOW, QUOTED_POSITIONS),
+            timeout=300, real=REAL_K3 + REAL_K3_QUOTED, stubs=(STUB_SUBPROCESS, STUB_SANDBOX, STUB_UNTRACED),
+            outside=('words that contain a quote character, a backslash or a symbol reference; a token only part of '
+                     'which is quoted',),
+            entry='full_execution.execute on the parsed test case'))
+    obs.append(Ob(name='K3:seeded-quoted-word-is-syntax', fn='k3_quoted_words',
+                  case=dict(layout='file-actor', oracle_bug='quoted-word-is-syntax'), kernel='K3', selector=True,
+                  bound='seeded oracle error: a quoted word expected to be taken by the syntax (no argument)', timeout=120,
+                  expect=ob.REFUTE, real=REAL_K3 + REAL_K3_QUOTED, stubs=(STUB_SUBPROCESS, STUB_SANDBOX, STUB_UNTRACED)))
     # ---- K4
     vc = dict(lo=-2 ** 31, hi=2 ** 31)
     obs.append(Ob(name='K4:verdict', fn='k4_verdict', case=vc, kernel='K4',
@@ -1430,6 +1756,73 @@ def obligations(tier: str) -> List[Ob]:
                   case=dict(scenario='instr/assert/run', oracle_bug='hard-error-everywhere'), kernel='K4',
                   bound='seeded oracle error: HARD_ERROR expected for a non-zero exit code in [assert] too', timeout=300,
                   expect=ob.REFUTE, real=REAL_K3 + REAL_K4, stubs=(STUB_SUBPROCESS, STUB_SANDBOX)))
+    # ---- K4: output that is not text
+    raw_names = tuple(d for d, _b in sp.RAW_OUTPUTS)
+    raw_stubs = (STUB_SUBPROCESS, STUB_RAW_CHILD, STUB_SANDBOX, STUB_UNTRACED)
+    forms = RAW_FORMS if tier == 'thorough' else RAW_FORMS[:3]
+    for ph in PHASES:
+        obs.append(Ob(
+            name='K4:raw-output/instr/' + ph, fn='k4_raw_instruction', case=dict(phase=ph, tier=tier, forms=forms),
+            kernel='K4', selector=True,
+            bound='a program run in [%s] by each of %r that writes each of the byte sequences %r to %r and exits with each '
+                  'of %r, with and without -ignore-exit-code (run only) (symbolic selectors): non-zero => %s, else PASS' % (
+                      ph, forms, raw_names, RAW_WHERE, _codes(tc), 'FAIL' if ph == 'assert' else 'HARD_ERROR'),
+            timeout=300, real=REAL_K3 + REAL_K4 + REAL_K4_RAW, stubs=raw_stubs,
+            entry='full_execution.execute on the parsed test case'))
+    obs.append(Ob(
+        name='K4:raw-output/any-byte', fn='k4_raw_byte', case=dict(phase='setup', form='%'), kernel='K4', selector=True,
+        bound='a program run by % in [setup] that exits with 3 and whose stderr is one byte b / an ASCII text with the byte b '
+              'in it, every b in 0..255 (symbolic integer, made concrete): HARD_ERROR',
+        timeout=300, real=REAL_K3 + REAL_K4 + REAL_K4_RAW, stubs=raw_stubs,
+        entry='full_execution.execute on the parsed test case'))
+    if tier == 'thorough':
+        for ph, form in (('assert', 'run'), ('cleanup', '$'), ('before-assert', 'run-ref')):
+            obs.append(Ob(
+                name='K4:raw-output/any-byte/%s/%s' % (ph, form), fn='k4_raw_byte', case=dict(phase=ph, form=form),
+                kernel='K4', selector=True,
+                bound='as K4:raw-output/any-byte, the program run by %s in [%s]' % (form, ph),
+                timeout=300, real=REAL_K3 + REAL_K4 + REAL_K4_RAW, stubs=raw_stubs))
+    obs.append(Ob(name='K4:seeded-raw-hard-error-in-assert', fn='k4_raw_instruction',
+                  case=dict(phase='assert', tier=tier, forms=RAW_FORMS[:1], oracle_bug='hard-error-everywhere'), kernel='K4',
+                  selector=True, bound='seeded oracle error: HARD_ERROR expected for a non-zero exit code in [assert] too',
+                  timeout=120, expect=ob.REFUTE, real=REAL_K3 + REAL_K4 + REAL_K4_RAW, stubs=raw_stubs))
+    obs.append(Ob(name='K4:seeded-raw-byte-hard-error-in-assert', fn='k4_raw_byte',
+                  case=dict(phase='assert', form='%', oracle_bug='hard-error-everywhere'), kernel='K4',
+                  selector=True, bound='seeded oracle error: HARD_ERROR expected for a non-zero exit code in [assert] too',
+                  timeout=120, expect=ob.REFUTE, real=REAL_K3 + REAL_K4 + REAL_K4_RAW, stubs=raw_stubs))
+    left_out = ' - `-stderr-from` without -ignore-exit-code, non-zero exit code, stderr not valid UTF-8 is left out ' \
+               '(defect reported, region %s pending)' % REGION_STDERR_FROM_RAW if _pending(REGION_STDERR_FROM_RAW) else ''
+    for layout in PARTS_LAYOUTS:
+        obs.append(Ob(
+            name='K4:raw-output/text-source/' + layout, fn='k4_raw_generator', case=dict(layout=layout, tier=tier),
+            kernel='K4', selector=True,
+            bound='test case %r with PROGRAM-OUTPUT one of %r; the program exits with each of %r and writes each of the byte '
+                  'sequences %r - to both channels when its exit code makes the text unusable, else to the channel that is '
+                  'not captured (symbolic selectors): non-zero and not ignored => HARD_ERROR and the process that needs '
+                  'the text is not started, else PASS and every process gets its stdin%s' % (
+                      _parts_case(layout, 'program').text().replace(sp.T['program'][0], 'PROGRAM-OUTPUT'),
+                      tuple(sp.T[v][0] for v in sp.GENERATOR_VARIANTS), _codes(tc), raw_names, left_out),
+            timeout=300, real=REAL_K3 + REAL_K3_PARTS + REAL_K4_RAW, stubs=raw_stubs,
+            outside=('bytes that are not text on the channel that IS captured (the text then is not a text)',),
+            entry='full_execution.execute on the parsed test case'))
+    obs.append(Ob(name='K4:seeded-exit-code-of-text-source-ignored', fn='k4_raw_generator',
+                  case=dict(layout='chain', tier=tier, oracle_bug='exit-code-of-text-source-ignored'), kernel='K4',
+                  selector=True, bound='seeded oracle error: the output of a program expected to be used whatever its exit code',
+                  timeout=120, expect=ob.REFUTE, real=REAL_K3 + REAL_K3_PARTS + REAL_K4_RAW, stubs=raw_stubs))
+    left_out = ' - an assertion that does not hold on a process whose stderr is not valid UTF-8 is left out (defect ' \
+               'reported, region %s pending)' % REGION_EXIT_CODE_MSG_RAW if _pending(REGION_EXIT_CODE_MSG_RAW) else ''
+    obs.append(Ob(
+        name='K4:raw-output/exit-code', fn='k4_raw_exit_code', case=dict(), kernel='K4', selector=True,
+        bound='test case %r: the action to check and the program of -from each write each of the byte sequences %r to stdout '
+              'and stderr and exit with each of %r (symbolic selectors): the first assertion that does not hold FAILs the '
+              'case, else PASS%s' % (_k3_case(RAW_EXIT_CODE_CASE).text(), raw_names, RAW_EXIT_CODES, left_out),
+        timeout=300, real=REAL_K3 + REAL_K4_RAW, stubs=raw_stubs,
+        outside=('`stdout` / `stderr` assertions on output that is not text (C14)',),
+        entry='full_execution.execute on the parsed test case'))
+    obs.append(Ob(name='K4:seeded-exit-code-from-not-looked-at', fn='k4_raw_exit_code',
+                  case=dict(oracle_bug='exit-code-from-not-looked-at'), kernel='K4', selector=True,
+                  bound='seeded oracle error: `exit-code -from PROGRAM` expected to hold whatever the exit code', timeout=120,
+                  expect=ob.REFUTE, real=REAL_K3 + REAL_K4_RAW, stubs=raw_stubs))
     return obs
 
 
@@ -1495,6 +1888,26 @@ def selftest(tier) -> int:
                     os.path.realpath(real_seen[2]) != os.path.realpath(recorded.cwd) or real_code != int(given_argv[0]):
                 raise AssertionError('recorder and real subprocess.call disagree: %r vs %r' % (real_seen, recorded))
             n += 1
+        # (1b) a child that writes bytes that are no text: the stand-in leaves the same bytes in the files as a real child
+        for _d, data in sp.RAW_OUTPUTS:
+            got = []
+            for real in (True, False):
+                out_path, err_path = os.path.join(work, 'raw-out'), os.path.join(work, 'raw-err')
+                with open(out_path, 'w') as f_out, open(err_path, 'w') as f_err:
+                    f_out.write('written before\n')
+                    f_out.flush()
+                    if real:
+                        code = subprocess.call(
+                            [sys.executable, '-c', 'import os,sys; os.write(1, %r); os.write(2, %r); sys.exit(3)' % (data, data)],
+                            stdin=subprocess.DEVNULL, stdout=f_out, stderr=f_err)
+                    else:
+                        code = L.Recorder(lambda c: L.Child(out=data, err=data, code=3)).call(
+                            ['x'], stdin=subprocess.DEVNULL, stdout=f_out, stderr=f_err)
+                with open(out_path, 'rb') as f_out, open(err_path, 'rb') as f_err:
+                    got.append((code, f_out.read(), f_err.read()))
+            if got[0] != got[1] or got[0] != (3, b'written before\n' + data, data):
+                raise AssertionError('stand-in child and real child leave different bytes: %r' % (got,))
+            n += 1
     finally:
         scratch.remove(work)
     # (2)
@@ -1526,6 +1939,8 @@ OUTSIDE = [
     'chains of program symbols longer than 3 (quick) / 4 (thorough); argument lists beyond the catalogue',
     'Windows (only the posix executable factory is driven)',
     'programs started by the `run` text-transformer / matchers and by the suite preprocessor',
+    'output of a child that is not text where it is USED as text (captured channel of a text source, model of the '
+    '`stdout` / `stderr` assertions): only the exit-code verdict and the error-message sites are covered',
     'the environment variables and the timeout handed to the process (C11, C19): K1 only checks that the settings '
     'object reaches subprocess.call unchanged',
 ]
